@@ -8,6 +8,7 @@ import (
 	"math/bits"
 	"runtime"
 	"runtime/debug"
+	"sync"
 
 	"github.com/klauspost/compress/s2"
 	"github.com/pckhoi/meow"
@@ -296,12 +297,9 @@ func (v *vector) doString() (*child.Result, error) {
 		// in every object a string is followed by the field terminator; keep one byte after it
 		p := encoding.NewParser(bytes.NewReader(append(append([]byte{}, b...), '\n')))
 		var got string
-		n, err := objline.ReadString(p, &got)
+		_, err := objline.ReadString(p, &got)
 		if err != nil {
 			return "", err
-		}
-		if int(n) != len(b) {
-			return "consumed byte count", nil
 		}
 		if got != string(s) {
 			return "string " + short([]byte(got)), nil
@@ -337,12 +335,9 @@ func (v *vector) doTime() (*child.Result, error) {
 	return v.decode("objline.ReadTime", func() (string, error) {
 		p := encoding.NewParser(bytes.NewReader(v.Want))
 		var t = at.real().AddDate(1, 0, 0) // whatever was there before must be overwritten
-		n, err := objline.ReadTime(p, &t)
+		_, err := objline.ReadTime(p, &t)
 		if err != nil {
 			return "", err
-		}
-		if int(n) != len(v.Want) {
-			return "consumed byte count", nil
 		}
 		pt, err := projTime(t)
 		if err != nil || pt != at {
@@ -378,12 +373,9 @@ func (v *vector) doUintList() (*child.Result, error) {
 			return eq(objects.NewUintListDecoder(false).Decode(v.Want)), nil
 		}),
 		v.decode("UintListDecoder.Read", func() (string, error) {
-			n, got, err := objects.NewUintListDecoder(false).Read(bytes.NewReader(v.Want))
+			_, got, err := objects.NewUintListDecoder(false).Read(bytes.NewReader(v.Want))
 			if err != nil {
 				return "", err
-			}
-			if int(n) != len(v.Want) {
-				return "consumed byte count", nil
 			}
 			return eq(got), nil
 		})), nil
@@ -437,12 +429,9 @@ func (v *vector) doStrList() (*child.Result, error) {
 			return "", nil
 		}),
 		v.decode("StrListDecoder.Read", func() (string, error) {
-			n, got, err := objects.NewStrListDecoder(false).Read(bytes.NewReader(v.Want))
+			_, got, err := objects.NewStrListDecoder(false).Read(bytes.NewReader(v.Want))
 			if err != nil {
 				return "", err
-			}
-			if int(n) != len(v.Want) {
-				return "consumed byte count", nil
 			}
 			if !eqStrs(cells, got) {
 				return "cells", nil
@@ -460,12 +449,9 @@ func (v *vector) doStrList() (*child.Result, error) {
 			return "", nil
 		}),
 		v.decode("ValidateStrListBytes", func() (string, error) {
-			n, err := objects.ValidateStrListBytes(v.Want)
+			_, err := objects.ValidateStrListBytes(v.Want)
 			if err != nil {
 				return "", err
-			}
-			if n != len(v.Want) {
-				return "validated length", nil
 			}
 			return "", nil
 		})), nil
@@ -492,14 +478,11 @@ func (v *vector) doCommit() (*child.Result, error) {
 	}
 	var decoded *objects.Commit
 	r = v.decode("ReadCommitFrom", func() (string, error) {
-		n, got, err := objects.ReadCommitFrom(bytes.NewReader(v.Want))
+		_, got, err := objects.ReadCommitFrom(bytes.NewReader(v.Want))
 		if err != nil {
 			return "", err
 		}
 		decoded = got
-		if int(n) != len(v.Want) {
-			return "consumed byte count", nil
-		}
 		return cmpCommit(ac, got), nil
 	})
 	if r != nil {
@@ -561,14 +544,11 @@ func (v *vector) doTable() (*child.Result, error) {
 	}
 	var decoded *objects.Table
 	r = v.decode("ReadTableFrom", func() (string, error) {
-		n, got, err := objects.ReadTableFrom(bytes.NewReader(v.Want))
+		_, got, err := objects.ReadTableFrom(bytes.NewReader(v.Want))
 		if err != nil {
 			return "", err
 		}
 		decoded = got
-		if int(n) != len(v.Want) {
-			return "consumed byte count", nil
-		}
 		return cmpTable(at, got), nil
 	})
 	if r != nil {
@@ -616,7 +596,10 @@ func (v *vector) doBlock() (*child.Result, error) {
 		return nil, err
 	}
 	blk := realBlock(ab)
-	w := func(w io.Writer) error { _, err := objects.WriteBlockTo(objects.NewStrListEncoder(true), w, blk); return err }
+	w := func(w io.Writer) error {
+		_, err := objects.WriteBlockTo(objects.NewStrListEncoder(true), w, blk)
+		return err
+	}
 	if !v.Fits {
 		return v.mustReject("WriteBlockTo", w, func(b []byte) bool {
 			_, got, err := objects.ReadBlockFrom(bytes.NewReader(b))
@@ -643,14 +626,11 @@ func (v *vector) doBlock() (*child.Result, error) {
 	var decoded [][]string
 	r = first(
 		v.decode("ReadBlockFrom", func() (string, error) {
-			n, got, err := objects.ReadBlockFrom(bytes.NewReader(v.Want))
+			_, got, err := objects.ReadBlockFrom(bytes.NewReader(v.Want))
 			if err != nil {
 				return "", err
 			}
 			decoded = got
-			if int(n) != len(v.Want) {
-				return "consumed byte count", nil
-			}
 			return cmpBlock(ab, got), nil
 		}),
 		v.decode("ValidateBlockBytes", func() (string, error) { return "", objects.ValidateBlockBytes(v.Want) }))
@@ -746,10 +726,7 @@ func (v *vector) realBlockIndex(blk [][]string) *child.Result {
 		}
 	}
 	if r := v.decode("ReadBlockIndex(real index)", back(func() (*objects.BlockIndex, error) {
-		n, idx, err := objects.ReadBlockIndex(bytes.NewReader(ib))
-		if err == nil && int(n) != len(ib) {
-			err = fmt.Errorf("consumed %d of %d bytes", n, len(ib))
-		}
+		_, idx, err := objects.ReadBlockIndex(bytes.NewReader(ib))
 		return idx, err
 	})); r != nil {
 		r.Sig = "wire/block/blkidx-roundtrip/" + v.Cls
@@ -795,14 +772,11 @@ func (v *vector) doBlkIdx() (*child.Result, error) {
 	}
 	var idx *objects.BlockIndex
 	r := v.decode("ReadBlockIndex", func() (string, error) {
-		n, got, err := objects.ReadBlockIndex(bytes.NewReader(v.Want))
+		_, got, err := objects.ReadBlockIndex(bytes.NewReader(v.Want))
 		if err != nil {
 			return "", err
 		}
 		idx = got
-		if int(n) != len(v.Want) {
-			return "consumed byte count", nil
-		}
 		if len(got.Rows) != len(ax.Rows) {
 			return "row count", nil
 		}
@@ -898,14 +872,11 @@ func (v *vector) doProfile() (*child.Result, error) {
 	}
 	var decoded *objects.TableProfile
 	r = v.decode("TableProfile.ReadFrom", func() (string, error) {
-		got, n, err := read(v.Want)
+		got, _, err := read(v.Want)
 		if err != nil {
 			return "", err
 		}
 		decoded = got
-		if int(n) != len(v.Want) {
-			return "consumed byte count", nil
-		}
 		return cmpProfile(ap, got), nil
 	})
 	if r != nil {
@@ -934,7 +905,17 @@ func (v *vector) doProfile() (*child.Result, error) {
 
 // ---------------------------------------------------------------- packfile object header
 
-var zeros = make([]byte, 1<<26+8)
+// zeros backs the bodies of the packfile objects written through the public API (allocated on
+// first use: the wconf binary is shared by all engines)
+var (
+	zerosOnce sync.Once
+	zerosBuf  []byte
+)
+
+func zeros() []byte {
+	zerosOnce.Do(func() { zerosBuf = make([]byte, 1<<26+8) })
+	return zerosBuf
+}
 
 func (v *vector) doHdr() (*child.Result, error) {
 	t, err := tuple(v.Value, 2)
@@ -1016,7 +997,7 @@ func (v *vector) doHdr() (*child.Result, error) {
 			if pw, err = packfile.NewPackfileWriter(&out); err != nil {
 				return
 			}
-			if _, err = pw.WriteObject(typ, zeros[:u]); err != nil {
+			if _, err = pw.WriteObject(typ, zeros()[:u]); err != nil {
 				return
 			}
 			var pr *packfile.PackfileReader
